@@ -76,10 +76,10 @@ def run_pca(cfg) -> Outcome:
 
     op, dom, rng_shape, tol = zoo_kernels.build(cfg)
     data = op._verif_data
-    M = op._compression_matrix.reshape(rng_shape[0], dom[0]).to(torch.complex128)
+    M = op._compression_matrix.reshape(rng_shape[-1], dom[-1]).to(torch.complex128)
     Dc = data - data.mean(-1, keepdim=True)
     ev = torch.linalg.eigvalsh(Dc.T @ Dc.conj())
-    n = rng_shape[0]
+    n = rng_shape[-1]
     best = float(ev[-n:].sum() / ev.sum())
     captured = float(((M @ Dc.T).abs() ** 2).sum() / (Dc.abs() ** 2).sum())
     viol = None
